@@ -5,19 +5,26 @@ Reference semantics: `BW.Spec.Query.solutions` (join, clause by clause, of the m
 on a scan of the queried graphs).  Planner model: `BW.Model.Query` (the three strategies of
 processClause over the store model).
 
-What is PROVED here: properties of the reference semantics that the property text states (a match
-respects constants and time bounds; a mandatory step only ever joins compatible matches; monotonicity)
-and properties of the planner model's join step (it joins only rows that agree on shared bindings and
-never alters values already bound).  What is NOT proved (`select_eq_solutions`, the equality of the
-planner's table with the solutions for every pattern) is tied by the three-way `query` correspondence
-only: implementation / planner model / reference semantics on generated stores and queries — partial.
+What is PROVED here: (1) properties of the reference semantics that the property text states (a match
+respects constants and time bounds; a mandatory step only ever joins compatible matches; monotonicity);
+(2) the planner's data access is the reference's clause match (`fetch_is_reference_match`,
+`triple_to_row_is_reference`); (3) every strategy of `processClause` is one join step of the reference
+(`one_clause_is_one_join`, `per_row_strategy_is_join`, `specialisation_is_transparent`); (4) the table
+`processGraphPattern` leaves is the set of solutions, for every pattern (`select_pattern_eq_solutions`).
+The equalities are between SETS of rows up to the zone in which an anchor is written — multiplicities are
+not claimed (the property leaves them open when a triple is stored in two listed graphs; clauses that bind
+nothing and interval predicates make them differ too) — and hold whenever the planner model succeeds, under
+hypotheses about the statement and the data that are spelled out at `select_pattern_eq_solutions`.
+The projection onto the selected bindings and the stages after it are C11–C13's; the tie of this model to
+the code is the three-way `query` correspondence (implementation / planner model / reference).
 -/
 import BW.Proofs.Query
 import BW.Proofs.PlannerFetch3
 import BW.Proofs.PlannerStep6
+import BW.Proofs.PlannerStep11
 
 namespace BW.Props.C03
-open BW.Model BW.Spec BW.Proofs.Query BW.Proofs.Planner BW.Proofs.Store
+open BW.Model BW.Spec BW.Proofs.Query BW.Proofs.Planner BW.Proofs.Store BW.Proofs.ClauseOrder
 
 /-- A clause matches a triple only if its constants equal the triple's parts (predicates: identifier,
     kind, instant) and the predicate lies inside the clause-level and global time bounds. -/
@@ -127,6 +134,42 @@ theorem specialisation_is_transparent {r : Row} {c c' : Clause} {lo lo' : QOpts}
     (matchClause c' w t = some m ∧ compatible r m = true) ↔ (matchClause c w t = some m ∧ compatible r m = true) :=
   match_specialised (specialise_strip h) (specialise_implied h).1 (specialise_implied h).2 ht t m
 
+/-! ### The planner's table is the set of solutions -/
+
+/-- **C03, for every pattern.** `processGraphPattern` — clause after clause, whichever of its strategies
+    `processClause` picks: existence test of a clause of constants, probe of a clause that binds nothing,
+    cross join / left outer join with a clause sharing no binding, per-row specialisation otherwise — leaves,
+    whenever it succeeds, a table whose rows are exactly the solutions of the reference semantics
+    (`solutions`: the join, clause by clause, of what each clause matches on a scan of the FROM graphs,
+    OPTIONAL as a left outer join): no solution is missing and no row is not a solution, as sets of rows and
+    up to the zone in which an anchor is written.
+    Hypotheses, all about the statement and the data, none about the execution: the graphs satisfy the
+    store's index invariant and their views are those of their triples (`GraphsOK`); the values in play
+    have distinct UUID pre-images (`Universe` — false exactly for the known findings D02/D04); every clause
+    is what the parser builds (`PatClause`: a position is a constant or open, bound aliases only on
+    `"id"@[?lo,?hi]`, the ID alias not named after its object, no clause made only of constants and bound
+    aliases); the first clause is mandatory and extracts something (otherwise the solutions may be the empty
+    assignment, which a table cannot hold: known finding D35); no FILTER; the statement limit is not
+    pushed down (`stmLimit = 0`; the push-down condition is C12's).
+    Multiplicities are not claimed (the property leaves them open when a triple is in two listed graphs);
+    errors are C08's and C20's subject. -/
+theorem select_pattern_eq_solutions {F : Facts} (hF : Facts.WF F = true) {gs : List QGraph} (hg : GraphsOK F gs)
+    (U : Universe gs) (lo : QOpts) (c0 : Clause) (cs : List Clause) (h0 : PatClause U c0)
+    (hrest : ∀ c ∈ cs, PatClause U c) (hopt : c0.optional = false) (hex : c0.extractsNothing = false) (out : Tbl)
+    (h : processPattern F gs (c0 :: cs) lo 0 (fun _ => none) = .ok out) :
+    SetEq out.rows (solutions (gs.flatMap scanOf) (nl lo.lower) (nl lo.upper) (c0 :: cs)) :=
+  processPattern_spec hF hg U lo c0 cs h0 hrest hopt hex out h
+
+/-- One clause, whatever the strategy. -/
+theorem one_clause_is_one_join {F : Facts} (hF : Facts.WF F = true) {gs : List QGraph} (hg : GraphsOK F gs)
+    (U : Universe gs) {tbl tbl' : Tbl} {unres : Bool} (ht : TblOK U tbl) {c : Clause} {lo : QOpts} (hc : PatClause U c)
+    (hfil : lo.filter = none) (hfirst : tbl.bindings = [] → c.optional = false ∧ c.extractsNothing = false)
+    (h : processClause F gs tbl c lo 0 = .ok (tbl', unres)) :
+    TblOK U tbl' ∧ (tbl'.bindings ≠ []) ∧
+    (unres = false → SetEq (absRows tbl') (joinClause (gs.flatMap scanOf) (nl lo.lower) (nl lo.upper) (absRows tbl) c)) ∧
+    (unres = true → joinClause (gs.flatMap scanOf) (nl lo.lower) (nl lo.upper) (absRows tbl) c = []) :=
+  processClause_spec hF hg U ht hc.wf hc.consts hc.inU hfil hfirst (fun he hb => absurd (hc.noBareAliases he) hb) h
+
 /-- Non-vacuity: the hypotheses hold for a one-triple graph and a clause with a constant predicate. -/
 def exV : TView := { id := 0, ks := preNode exT.s, pid := exT.p.id, pnano := none, ko := preNode ⟨[47, 117], [98]⟩ }
 def exQ : QGraph := { g := Graph.empty.add1 Facts.reference exV, uni := fun _ => some exT }
@@ -151,6 +194,48 @@ example : AnchorsApart [exQ] exC := by
   subst ht
   rfl
 
+/-- A universe for the one-triple graph: its two nodes and its predicate. -/
+def exU : Universe [exQ] where
+  cell v := v = .node exT.s ∨ v = .node ⟨[47, 117], [98]⟩ ∨ v = .pred (.imm [112])
+  ids _ := False
+  norm := by
+    intro v v' h hv
+    rcases hv with e | e | e <;> subst e
+    · cases v' <;> simp [normCell] at h
+      exact Or.inl (by rw [h])
+    · cases v' <;> simp [normCell] at h
+      exact Or.inr (Or.inl (by rw [h]))
+    · cases v' <;> simp [normCell, normPredC] at h
+      rename_i p
+      cases p <;> simp [normPredC] at h
+      exact Or.inr (Or.inr (by rw [h]))
+  stored := by
+    intro q hq t ht
+    simp only [List.mem_singleton] at hq; subst hq
+    simp [scanOf, QGraph.triples, exQ, Graph.add1, Graph.empty, Facts.reference] at ht
+    subst ht
+    exact ⟨Or.inl rfl, Or.inr (Or.inr rfl), Or.inr (Or.inl rfl)⟩
+  anchor := by intro i ta h; rcases h with e | e | e <;> cases e
+  built := by intro i ta h; exact h.elim
+  injNode := by
+    intro n n' h h' he
+    rcases h with e | e | e <;> rcases h' with e' | e' | e' <;> cases e <;> cases e' <;> first | rfl | (exfalso; revert he; decide)
+  injObj := by
+    intro o o' h h' he
+    have key : ∀ x : Obj, (objCell x = .node exT.s ∨ objCell x = .node ⟨[47, 117], [98]⟩ ∨ objCell x = .pred (.imm [112])) →
+        x = .node exT.s ∨ x = .node ⟨[47, 117], [98]⟩ ∨ x = .pred (.imm [112]) := by
+      intro x hx
+      cases x <;> simp [objCell] at hx ⊢ <;> exact hx
+    rcases key o h with e | e | e <;> rcases key o' h' with e' | e' | e' <;> subst e <;> subst e' <;>
+      first | rfl | (exfalso; revert he; decide)
+  injTime := by intro a b h; rcases h with e | e | e <;> cases e
+
+example : PatClause exU exC :=
+  ⟨⟨Or.inl rfl, fun _ => ⟨rfl, rfl⟩, ⟨rfl, rfl⟩⟩, ⟨fun h => by simp [exC] at h, fun _ => ⟨rfl, rfl, rfl⟩, fun h => by simp [exC] at h⟩,
+   ⟨fun s hs => by simp [exC] at hs, fun p hp => by simp [exC] at hp; subst hp; exact Or.inr (Or.inr rfl),
+    fun o ho => by simp [exC] at ho, fun h => absurd rfl h, fun h => absurd rfl h⟩, fun h => by simp [exC, Clause.extractsNothing] at h⟩
+example : exC.optional = false ∧ exC.extractsNothing = false := by decide
+
 end BW.Props.C03
 
 #print axioms BW.Props.C03.match_respects_constants_and_bounds
@@ -166,3 +251,5 @@ end BW.Props.C03
 #print axioms BW.Props.C03.triple_to_row_is_reference
 #print axioms BW.Props.C03.per_row_strategy_is_join
 #print axioms BW.Props.C03.specialisation_is_transparent
+#print axioms BW.Props.C03.select_pattern_eq_solutions
+#print axioms BW.Props.C03.one_clause_is_one_join
